@@ -1,25 +1,11 @@
-"""Per-property registration data used to generate MANIFEST.json (python -m harness.manifest)."""
+"""Per-property registration data used to generate MANIFEST.json (python -m harness.manifest).
+One JSON file per property in harness/registry.d/<ID>.json with keys: modules, text, technique, ref, [note]."""
+import json
+from pathlib import Path
 
 TRUSTED = ("TLC 1.8 / SANY / CommunityModules; the thin alpha/gamma layer of harness/exact.py (rejecting abstraction); "
            "IEEE-754 exactness on the lattices chosen; exhaustive only inside the stated bounds")
 
-REG = {
-    "C01": dict(
-        modules=["Masks", "Trace_Masks"],
-        text=("Masks.tla defines slim/native forms and the index tables; TLC checks the round-trip, bijection and partition "
-              "theorems on every mask of every shape inside the bound and enumerates those masks; each is replayed through the "
-              "real Array2D/Grid2D/VectorYX2D/Array1D/Grid1D/Mask2D API (tagged and random-real payloads) and every recorded "
-              "output is validated by TLC against Trace_Masks.tla; seeded random masks up to 12x12 extend the reach."),
-        technique="TLA+ spec (Masks.tla) + TLC exhaustive mask enumeration + trace validation of recorded API outputs (Trace_Masks.tla)",
-        ref="DESIGN.md section 4, C01",
-    ),
-    "C10": dict(
-        modules=["Masks", "Trace_Masks"],
-        text=("Masks.tla defines the blurring set, the two-sided edge specification (EdgeMust <= E <= EdgeMay), the border relative "
-              "to the reported edge set and the consistency of the four views; TLC enumerates every mask inside the bound "
-              "(outer-ring pixels, holes, bridges included), the real derive_indexes/derive_mask/derive_grid/blurring API is run "
-              "on each, and TLC validates every record against Trace_Masks.tla; seeded random masks up to 12x12."),
-        technique="TLA+ spec (Masks.tla) + TLC exhaustive mask enumeration + trace validation with two-sided postconditions",
-        ref="DESIGN.md section 4, C10",
-    ),
-}
+REG = {}
+for f in sorted((Path(__file__).resolve().parent / "registry.d").glob("C*.json")):
+    REG[f.stem] = json.loads(f.read_text())
